@@ -50,6 +50,11 @@ fn main() {
                     client::pty::cleanup_workdirs();
                     c
                 }
+                "K17" => {
+                    let c = replay_with(&client::ClientEngine { prop: "C17" }, &rf, &path);
+                    client::pty::cleanup_workdirs();
+                    c
+                }
                 "T12" => replay_with(&tracker::TrackerEngine { prop: "C12" }, &rf, &path),
                 "T13" => replay_with(&tracker::TrackerEngine { prop: "C13" }, &rf, &path),
                 "T14" => replay_with(&tracker::TrackerEngine { prop: "C14" }, &rf, &path),
@@ -83,6 +88,13 @@ fn check(prop: &str, tier: &str) -> i32 {
             let mut cfg = BatchCfg::from_env(tier, 1_500, 250_000, 240.0, 1800.0);
             cfg.shrink_budget = 400;
             let r = run_batch(&client::ClientEngine { prop: "C16" }, &cfg).exit_code;
+            client::pty::cleanup_workdirs();
+            r
+        }
+        "C17" => {
+            let mut cfg = BatchCfg::from_env(tier, 1_500, 250_000, 240.0, 1800.0);
+            cfg.shrink_budget = 400;
+            let r = run_batch(&client::ClientEngine { prop: "C17" }, &cfg).exit_code;
             client::pty::cleanup_workdirs();
             r
         }
